@@ -154,7 +154,9 @@ def run(rep):
     SCALAR2 = "isinstance(V, (str, float, int))"
     venv = {"V": Vx}
     wrapped = [e for e in stores if pq.same(e.val, ('tuple', (Vx,)))]
-    plain = [e for e in stores if pq.same(e.val, Vx)]
+    # the iterable itself, or a list / tuple copy of it (same elements in the same order)
+    plain = [e for e in stores if pq.same(e.val, Vx) or any(pq.same(e.val, ('call', fn_, (Vx,))) for fn_ in ("py.list", "list"))]
+    plain = [e for e in plain if not any(e is w_ for w_ in wrapped)]
     okw = len({show(e.key) for e in stores}) == 1 and bool(stores) and pq.same(stores[0].key, ('call', 'py.str', (Kx,))) and bool(wrapped) and bool(plain)
     def scalar_true(conds):
         return any(t and (pq.same(c, pq.parse(SCALAR, venv)) or pq.same(c, pq.parse(SCALAR2, venv)) or _isinstance_set(c, Vx) == {"str", "float", "int"}) for c, t in conds)
